@@ -62,6 +62,16 @@ Theorem c03_wf_invariant : forall (os : list obs),
 Proof. intros os H. apply wf_invariant_lemma; [reflexivity | exact H]. Qed.
 Print Assumptions c03_wf_invariant.
 
+(** 4. Structural consistency read from the source on every run: the soft-decision width of the demapper call in do_frame()
+    (llr<FloatType, N>) equals the width the frame decoder's Viterbi decoder is instantiated with (its cost normalisation and
+    the cost limits of the coasting logic assume it), the framer collects exactly one frame decoder input (368 soft bits = 184 symbols),
+    the symbol polarity is +1, and the free-running clock hand-over happens half a symbol away from the sampling instant. *)
+Theorem c03_structural_constants :
+  LLR_WIDTH = VITERBI_LLR_WIDTH /\ FRAMER_BITS = 368 /\ PAYLOAD_SYMBOLS = 184 /\ POLARITY = 1 /\
+  FAR_POINT * 2 = SAMPLES_PER_SYMBOL /\ CORR_SPS = SAMPLES_PER_SYMBOL /\ CORR_BUFFER = SYNC_SYMBOLS * SAMPLES_PER_SYMBOL.
+Proof. exact structural_constants_lemma. Qed.
+Print Assumptions c03_structural_constants.
+
 (** Non-vacuity: concrete observation sequences satisfying the hypotheses of theorem 1. *)
 
 (** a frame boundary, sampling index 3, previous cost 10 *)
